@@ -16,6 +16,46 @@ fn force(kind: u8) {
     let _ = kind;
 }
 
+/// A leak of secret A shows up as a window of A's secret-derived strings that is present in the blocks
+/// freed while A was processed and ABSENT from the blocks freed while an independent secret B was
+/// processed with the same public inputs. (A window present in both logs is public data that merely
+/// looks like a structured secret - e.g. the limb 2^51-19 = ed ff ff ff ff ff 07 00 occurs both in
+/// field elements of public tables and in the generator's "all-ones limb" secrets.)
+fn leak_found(own: &[Vec<u8>], other: &[Vec<u8>], needles: &[Vec<u8>]) -> bool {
+    use std::collections::HashSet;
+    let mut set: HashSet<[u8; 8]> = HashSet::new();
+    for n in needles {
+        for w in n.windows(8) {
+            let distinct: HashSet<u8> = w.iter().copied().collect();
+            if distinct.len() >= 4 {
+                set.insert(w.try_into().unwrap());
+            }
+        }
+    }
+    if set.is_empty() {
+        return false;
+    }
+    let mut hits: HashSet<[u8; 8]> = HashSet::new();
+    for b in own {
+        for w in b.windows(8) {
+            let k: [u8; 8] = w.try_into().unwrap();
+            if set.contains(&k) {
+                hits.insert(k);
+            }
+        }
+    }
+    if hits.is_empty() {
+        return false;
+    }
+    for b in other {
+        for w in b.windows(8) {
+            let k: [u8; 8] = w.try_into().unwrap();
+            hits.remove(&k);
+        }
+    }
+    !hits.is_empty()
+}
+
 /// does any 8-byte window of `needle` (ignoring all-zero / all-0xff... trivial windows) occur in a block
 fn window_found(blocks: &[Vec<u8>], needles: &[Vec<u8>]) -> bool {
     use std::collections::HashSet;
@@ -131,7 +171,7 @@ pub fn exec(op: &str, a: &[Vec<u8>]) -> Out {
                 v
             };
             let equal = logs[0] == logs[1];
-            let mut o = vec![equal as u8, window_found(&logs[0], &needles(&sa)) as u8, window_found(&logs[1], &needles(&sb)) as u8];
+            let mut o = vec![equal as u8, leak_found(&logs[0], &logs[1], &needles(&sa)) as u8, leak_found(&logs[1], &logs[0], &needles(&sb)) as u8];
             o.extend_from_slice(&(logs[0].len() as u32).to_le_bytes());
             o.extend_from_slice(&(logs[0].iter().map(|b| b.len()).sum::<usize>() as u32).to_le_bytes());
             Out::Ok(o)
@@ -143,7 +183,7 @@ pub fn exec(op: &str, a: &[Vec<u8>]) -> Out {
                 return Out::Rej;
             }
             let mut logs = vec![];
-            let mut found = vec![];
+            let mut all_needles = vec![];
             for s in [&sa, &sb] {
                 let mut v = s.clone();
                 let (ret, blocks, ovf) = record(|| Scalar::batch_invert(&mut v));
@@ -159,9 +199,10 @@ pub fn exec(op: &str, a: &[Vec<u8>]) -> Out {
                     acc *= x;
                     needles.push(acc.to_bytes().to_vec());
                 }
-                found.push(window_found(&blocks, &needles));
+                all_needles.push(needles);
                 logs.push(blocks);
             }
+            let found = [leak_found(&logs[0], &logs[1], &all_needles[0]), leak_found(&logs[1], &logs[0], &all_needles[1])];
             let mut o = vec![(logs[0] == logs[1]) as u8, found[0] as u8, found[1] as u8];
             o.extend_from_slice(&(logs[0].len() as u32).to_le_bytes());
             o.extend_from_slice(&(logs[0].iter().map(|b| b.len()).sum::<usize>() as u32).to_le_bytes());
